@@ -249,10 +249,39 @@ def build_same_name_in_two_modules():
     return out
 
 
-def special_case(builder, n_classes, n_views):
+def build_zoo():
+    """several direct bases one of which is an ancestor of another (Document(Tracked, Entity), Tracked(Entity)); fields typed
+    with classes that may be left out of the diagram while their ancestor is in (Owner -> Dog / Puppy, Animal)"""
+    _counter[0] += 1
+    modname = "verif_c17_zoo_%d_%d" % (os.getpid(), _counter[0])
+    mod = types.ModuleType(modname)
+    sys.modules[modname] = mod
+    mod.Optional, mod.List, mod.Set, mod.Type = Optional, List, Set, Type
+    Entity = make_dataclass("Entity", [("v", int, field(default=0))], module=modname, eq=False)
+    Tracked = make_dataclass("Tracked", [], bases=(Entity,), module=modname, eq=False)
+    Document = make_dataclass("Document", [], bases=(Tracked, Entity), module=modname, eq=False)
+    Animal = make_dataclass("Animal", [("n", int, field(default=0))], module=modname, eq=False)
+    Dog = make_dataclass("Dog", [], bases=(Animal,), module=modname, eq=False)
+    Owner = make_dataclass("Owner", [("favourite", "Dog", field(default=None)), ("dogs", "List[Dog]", field(default_factory=list)), ("maybe", "Optional[Dog]", field(default=None)),
+                                     ("pet", "Animal", field(default=None)), ("doc", "Optional[Document]", field(default=None))], module=modname, eq=False)
+    out = [Entity, Tracked, Document, Animal, Dog, Owner]
+    for c in out:
+        setattr(mod, c.__name__, c)
+    return out
+
+
+def special_case(builder, n_classes, n_views, subsets=False):
     def h(ctx):
         classes = builder()
-        orders = list(itertools.permutations(range(n_classes)))
+        if subsets:
+            # any subset of the classes may be handed to the diagram (a class that is left out is no endpoint of an edge)
+            classes = [c for i, c in enumerate(classes) if ctx.flag("in%d" % i)]
+            if not classes:
+                ctx.assume(False)
+            n = len(classes)
+            orders = [tuple(range(n)), tuple(reversed(range(n)))]
+        else:
+            orders = list(itertools.permutations(range(n_classes)))
         order = orders[ctx.choice("order", len(orders))]
         ctx.observe(builder.__name__, order)
         ctx.note("nonempty", 1)
@@ -279,6 +308,7 @@ def cases(tier, seed):
     cs = []
     n_views = 2 if tier == "quick" else 3
     cs.append(Case("generic base chain (5 classes, every order)", special_case(build_generic_chain, 5, 1), validate=0, timeout=900))
+    cs.append(Case("several direct bases incl. an ancestor; field types left out of the diagram (every subset of 6 classes, 2 orders)", special_case(build_zoo, 6, 1, subsets=True), key="zoo", validate=0, timeout=900))
     cs.append(Case("same class name in two modules (4 classes, every order)", special_case(build_same_name_in_two_modules, 4, 1), validate=0, timeout=900))
     scal = ["int", "opt-int", "enum", "list-int", "private"] if tier == "quick" else [k for k in KINDS if k not in REFS]
     refs = ["ref", "opt-ref", "list-ref", "type-ref", "opt-nested-fwd"] if tier == "quick" else list(REFS)
@@ -301,7 +331,7 @@ def describe(tier):
     return dict(
         rule="sets of dataclasses synthesised from bounded symbolic specifications (K <= 2 quick / 3 thorough classes, base in {none, earlier class}, fields with annotations from "
         "{int, Optional[int], Enum, Optional[Enum], List[int], Set[str], datetime, _private, a class, Optional[class], List/Set[class], Type[class], forward references as "
-        "strings and quoted forward references nested inside Optional / List / Type}, every reference target incl. self), plus a chain of plain subclasses below a parametrised generic base and two modules defining classes of the same name with string annotations, handed to ClassDiagram in every order; nodes, inheritance edges, association edges and the classification predicates "
+        "strings and quoted forward references nested inside Optional / List / Type}, every reference target incl. self), plus a model with several direct bases one of which is an ancestor of another and field types that may be left out of the diagram (every subset of its 6 classes), a chain of plain subclasses below a parametrised generic base and two modules defining classes of the same name with string annotations, handed to ClassDiagram in every order; nodes, inheritance edges, association edges and the classification predicates "
         "of every field are compared with an independent typing.get_type_hints analysis; then a bounded symbolic sequence of read-only operations (both sub-diagram "
         "derivations, associations, inheritance_relations, parent_map, get_out_edges, association keys, all_ancestors) with a full snapshot (nodes, edges, fields) "
         "before/after. distinct = distinct (specification, order, view sequence); non-trivial = every path builds a diagram",
